@@ -1112,6 +1112,23 @@ def _one(plot, f, rng):
     return "figprops %s %d %s" % (plot, PLOTS[plot][0], enc_opts(opts + [("-f", "out.png")]))
 
 
+def pair_ops(rng):
+    """-xticks and -xlim together, in both orders, on every date-axis kind: _adjust_axis converts the dates of each of
+    them (seeded change C17f: after set_xticks had replaced the date locator, the limits were no longer recognised as
+    dates and applied raw)"""
+    for plot in sorted(TIME_AXIS & set(PLOTS)):
+        chosen = {}
+        for order in (("-xticks", "-xlim"), ("-xlim", "-xticks")):
+            opts = []
+            for f in order:
+                if not applicable(plot, f):
+                    break
+                chosen.setdefault(f, gen_value(f, rng, plot, chosen))
+                opts.append((f, chosen[f]))
+            else:
+                yield "figprops %s %d %s" % (plot, PLOTS[plot][0], enc_opts(opts + [("-f", "out.png")]))
+
+
 def single_ops(rng, all_plots):
     """every option alone (plus what it needs) on every plot kind it applies to / on a rotating plot kind; every core
     option alone on the date axis and on -type rank / impact / maprank; -sp on every kind with a perfect score"""
@@ -1169,6 +1186,7 @@ def _indep_op(rng, plot, cfg):
 
 def gen_ops(tier, rng):
     out = [("fig.single", op) for op in single_ops(rng, tier == "thorough")]
+    out += [("fig.pair", op) for op in pair_ops(rng)]
     core = list(core_ops(rng, tier))
     out += [("fig.core", op) for op in core]
     nrand = 150 if tier == "quick" else 1500
